@@ -105,7 +105,7 @@ def run(ctx):
             res2, rec2 = run_mc(I, prov, n_rows, util2, iterations, seed, scramble=rng.randrange(10 ** 6))
             if rec2.perms != perms or res2 != res:
                 ctx.mismatch("same seed, different permutations/scores after the global generators were re-seeded", case, impl=dict(first=perms[:3], second=rec2.perms[:3]))
-        if ctx.elapsed() > (100 if q else 900):
+        if ctx.elapsed() > (400 if q else 1800):
             break
     return ctx.finish("proof", "C04_column / C04_telescope / C04_estimator (+ C04_uniform via Shapley's uniqueness theorem): for every game, provenance and list of sampled "
                       "permutations the modelled scores are the average of the per-permutation marginals and sum to v(all) - v(none). This run tied the model to "
